@@ -126,6 +126,22 @@ func (fr *Frame) call(instr ssa.Instruction, cc *ssa.CallCommon, pos token.Pos) 
 		}
 	}
 	res := fr.dispatchCall(instr, cc, pos, names)
+	// call log
+	if c := fr.R.Contract; c != nil {
+		for _, tr := range c.Tracks {
+			if nameMatches(names, tr.Callee) {
+				cond := True
+				if tr.When != nil {
+					vars := map[string]EV{}
+					for i, a := range fr.callArgVals(cc) {
+						vars[fmt.Sprintf("$%d", i)] = valToEV(a, fr.argType(cc, i))
+					}
+					cond = fr.ctxHere().with(vars).Bool(tr.When)
+				}
+				fr.logCallIf(tr.Alias, cc, res, cond)
+			}
+		}
+	}
 	if c := fr.C; c != nil {
 		for _, sn := range c.Snaps {
 			if nameMatches(names, sn.Callee) {
@@ -133,14 +149,6 @@ func (fr *Frame) call(instr ssa.Instruction, cc *ssa.CallCommon, pos token.Pos) 
 					fr.R.unsupported("snapshot %s is taken at more than one call site", sn.Alias)
 				}
 				fr.R.snaps[sn.Alias] = fr.st.Clone()
-			}
-		}
-	}
-	// call log
-	if c := fr.R.Contract; c != nil {
-		for _, tr := range c.Tracks {
-			if nameMatches(names, tr.Callee) {
-				fr.logCall(tr.Alias, cc, res)
 			}
 		}
 	}
@@ -179,6 +187,10 @@ func (fr *Frame) callArgVals(cc *ssa.CallCommon) []Val {
 }
 
 func (fr *Frame) logCall(alias string, cc *ssa.CallCommon, res Val) {
+	fr.logCallIf(alias, cc, res, True)
+}
+
+func (fr *Frame) logCallIf(alias string, cc *ssa.CallCommon, res Val, cond Term) {
 	g := fr.st.ghost
 	cntKey := "calls." + alias
 	cnt, ok := g[cntKey]
@@ -199,29 +211,42 @@ func (fr *Frame) logCall(alias string, cc *ssa.CallCommon, res Val) {
 		resTypes = []types.Type{sig.Results().At(0).Type()}
 	}
 	for n := 1; n <= 2; n++ {
-		isNth := Eq(cnt, IntLit(int64(n-1)))
+		isNth := And(cond, Eq(cnt, IntLit(int64(n-1))))
 		for i, r := range results {
 			key := fmt.Sprintf("res.%s.%d.%d", alias, n, i)
-			fr.R.trackTypes[key] = resTypes[i]
+			if _, seen := fr.R.trackTypes[key]; !seen {
+				fr.R.trackTypes[key] = resTypes[i]
+			}
 			rt := fr.termOf(r)
 			old, ok := g[key]
 			if !ok {
 				old = fr.R.Sc.Declare("never."+sanitize(key), rt.Sort)
 			}
+			if old.Sort != rt.Sort {
+				// a call of another instantiation: if it is logged here at all, the slot holds an unknown value
+				rt = fr.R.Sc.FreshConst("log.other", old.Sort)
+			} else {
+				fr.R.trackTypes[key] = resTypes[i]
+			}
 			g[key] = fr.define("log", Ite(isNth, rt, old))
 		}
 		for k, a := range args {
 			key := fmt.Sprintf("arg.%s.%d.%d", alias, n, k)
-			fr.R.trackTypes[key] = fr.argType(cc, k)
+			if _, seen := fr.R.trackTypes[key]; !seen {
+				fr.R.trackTypes[key] = fr.argType(cc, k)
+			}
 			at := fr.termOf(a)
 			old, ok := g[key]
 			if !ok {
 				old = fr.R.Sc.Declare("never."+sanitize(key), at.Sort)
 			}
+			if old.Sort != at.Sort {
+				at = fr.R.Sc.FreshConst("log.other", old.Sort)
+			}
 			g[key] = fr.define("log", Ite(isNth, at, old))
 		}
 	}
-	g[cntKey] = fr.define("cnt", Add(cnt, IntLit(1)))
+	g[cntKey] = fr.define("cnt", Ite(cond, Add(cnt, IntLit(1)), cnt))
 }
 
 func (fr *Frame) dispatchCall(instr ssa.Instruction, cc *ssa.CallCommon, pos token.Pos, names []string) Val {
@@ -614,6 +639,8 @@ func (fr *Frame) applyContractVars(c *Contract, fn *ssa.Function, cc *ssa.CallCo
 	c.Used = true
 	if c.Trusted {
 		fr.R.Trusted["trusted contract: "+c.Key] = true
+	} else if c.Abstract {
+		fr.R.Trusted["interface-method contract (holds if every implementation's contract refines it): "+c.Key] = true
 	} else {
 		fr.R.UsedContracts[c.Key] = true
 	}
@@ -793,9 +820,13 @@ func (fr *Frame) havocTarget(ctx *EvalCtx, e Expr) {
 				h.HavocAll(fr.st)
 				return
 			}
-			for _, comp := range fr.reachComps(ty) {
-				h.Havoc(fr.st, comp)
+			var root Term
+			if in, ok := ctx.vars[name+"!inner"]; ok {
+				root = in.T
+			} else if v, ok := ctx.vars[name]; ok {
+				root = v.T
 			}
+			fr.havocReach(ty, root)
 			return
 		case "all":
 			var x EV
@@ -896,4 +927,32 @@ func (fr *Frame) reachComps(t types.Type) []string {
 	}
 	visit(t, 0)
 	return out
+}
+
+// havocReach forgets what a callee may write through a pointer/slice/map argument: the pointee itself precisely,
+// everything reachable beyond it by type.
+func (fr *Frame) havocReach(ty types.Type, root Term) {
+	h := fr.R.Heap
+	deeper := func(t types.Type) {
+		for _, comp := range fr.reachComps(t) {
+			h.Havoc(fr.st, comp)
+		}
+	}
+	switch u := types.Unalias(ty).Underlying().(type) {
+	case *types.Pointer:
+		el := types.Unalias(u.Elem())
+		if st, ok := el.Underlying().(*types.Struct); ok && !fr.isOpaqueStruct(el) {
+			for i := 0; i < st.NumFields(); i++ {
+				l := &Loc{Kind: LObj, Ref: root, Type: el, Path: []int{i}}
+				fr.store(l, fr.freshTyped("mod."+st.Field(i).Name(), st.Field(i).Type()))
+				deeper(st.Field(i).Type())
+			}
+			return
+		}
+		l := fr.locOf(Val{T: root}, el)
+		fr.store(l, fr.freshTyped("mod.pointee", el))
+		deeper(el)
+	default:
+		deeper(ty)
+	}
 }
